@@ -105,7 +105,7 @@ func Observe(e *engine.Engine, u Universe) *Obs {
 			if err != nil {
 				continue
 			}
-			o.Vecs["idx/"+name+"/vec/"+id] = d.Vector
+			o.Vecs["idx/"+name+"/vec/"+id] = CopyVec(d.Vector) // VGet returns a view into the mmap arena
 			o.Vals["idx/"+name+"/meta/"+id] = CanonJSON(NormMeta(d.Metadata))
 		}
 	}
